@@ -256,6 +256,11 @@ def run(prop, tier):
                 for lat in ([0, 0, 0], [0, 20, 0]):
                     scheds.append(json.dumps({"auth": 0, "ackAt": 1, "infoAt": 1, "lat": lat, "policy": "prompt",
                                               "preDelay": {"frame": frame, "secs": secs}}, sort_keys=True))
+        if prop == "C01":
+            # ... also for hours: whatever the server keeps per process and refreshes over time, the service is asked with what THIS exchange used
+            for secs in (3700, 7300):
+                scheds.append(json.dumps({"auth": 0, "ackAt": 1, "infoAt": 1, "lat": [0, 0, 0], "policy": "prompt",
+                                          "preDelay": {"frame": "EncryptionResponse", "secs": secs}}, sort_keys=True))
         tinp, toutp = os.path.join(wd, "timed_in.ndjson"), os.path.join(wd, "timed_obs.ndjson")
         trecs = [{"sched": json.loads(x)} for x in scheds]
         if prop == "C03":
